@@ -179,8 +179,14 @@ class _Pass(ast.NodeTransformer):
                         and n.id not in tgt_names and n.id in self._fn_locals[-1]:
                     read.append(n.id)
         # one closure per local: a local may still be unbound at loop entry
-        lam = ast.parse("{" + ",".join(f"{a!r}: (lambda: {a})" for a in assigned + read) + "}", mode="eval").body
+        lam = ast.parse("{" + ",".join(f"{a!r}: (lambda: {a})" for a in assigned + read + tgt_names) + "}", mode="eval").body
         order = ast.parse(repr(tuple(assigned)), mode="eval").body
+        aug = []
+        for st in node.body:
+            for n in ast.walk(st):
+                if isinstance(n, ast.AugAssign) and isinstance(n.target, ast.Name) and n.target.id not in aug:
+                    aug.append(n.target.id)
+        augn = ast.parse(repr(tuple(aug)), mode="eval").body
         if isinstance(node, ast.While):
             # while test: body  ==>  for _ in cut(label, forever): havoc; if not test: break; body
             brk = ast.If(test=ast.UnaryOp(op=ast.Not(), operand=node.test), body=[ast.Break()], orelse=[])
@@ -188,12 +194,14 @@ class _Pass(ast.NodeTransformer):
                           body=[brk] + node.body, orelse=[], lineno=node.lineno, col_offset=node.col_offset)
             node = new
         node.iter = ast.Call(func=ast.Attribute(value=ast.Name("_pyvc", ast.Load()), attr="cut", ctx=ast.Load()),
-                             args=[ast.Constant(label), node.iter, lam, order], keywords=[])
+                             args=[ast.Constant(label), node.iter, lam, order, augn], keywords=[])
         out = [node]
         if assigned:
             hv = f"({', '.join(assigned)},) = _pyvc.havoc_locals({label!r})"
             node.body.insert(0, ast.parse(hv).body[0])
-            out.append(ast.parse(hv.replace("havoc_locals", "exit_locals")).body[0])
+        if assigned or tgt_names:
+            ex = f"({', '.join(assigned + tgt_names)},) = _pyvc.exit_locals({label!r}, {tuple(tgt_names)!r})"
+            out.append(ast.parse(ex).body[0])
         self.applied.append(f"T5 {q}: loop #{ordinal} cut as {label!r}, havoc {assigned}, readable {read}")
         return out
 
